@@ -51,6 +51,7 @@ type Violation struct {
 // World is one simulated run.
 type World struct {
 	barriers map[string]*barrierRec
+	freeze   *Call // the clock is frozen until this call has returned (C06)
 	Cfg  RunConfig
 	Prog *Program
 
